@@ -408,7 +408,13 @@ func runConf(run *lib.Run, r *lib.RNG, c *conf, base, nReq int) {
 			}
 			in := lib.NewStream(tc)
 			// inner request; when the proxy demands auth the inner request carries it too
-			ifs := []lib.Field{{"Host", hp}, {"X-Vid", id}}
+			// (the default port is as often implied as spelled out: "site" over https and "site"
+			// over http are different hops for the credential table)
+			innerHost := hp
+			if port == "443" && r.Bool() {
+				innerHost = host
+			}
+			ifs := []lib.Field{{"Host", innerHost}, {"X-Vid", id}}
 			if c.basic || r.Bool() {
 				ifs = append(ifs, pa...)
 			}
